@@ -9,6 +9,8 @@ pub mod c03;
 pub mod c04;
 pub mod c05;
 pub mod c07;
+pub mod c10;
+pub mod c11;
 pub mod c12;
 pub mod c14;
 pub mod c15;
@@ -29,7 +31,7 @@ pub struct PropDef {
 }
 
 pub fn all() -> Vec<PropDef> {
-    vec![c01::def(), c02::def(), c03::def(), c04::def(), c05::def(), c07::def(), c12::def(), c14::def(), c15::def(), c17::def()]
+    vec![c01::def(), c02::def(), c03::def(), c04::def(), c05::def(), c07::def(), c10::def(), c11::def(), c12::def(), c14::def(), c15::def(), c17::def()]
 }
 
 pub fn get(id: &str) -> Option<PropDef> {
